@@ -269,13 +269,14 @@ impl ConsumerGroup {
         acked
     }
     
-    /// Claim ownership of messages from another consumer
+    /// Claim ownership of messages from another consumer.
+    /// `creatable`: IDs for which a missing pending entry may be created (XCLAIM FORCE, entries that exist in the stream)
     pub fn claim_messages(
         &self, 
         new_consumer: &str, 
         min_idle_ms: u64, 
         ids: &[StreamId],
-        force: bool
+        creatable: &[StreamId]
     ) -> Vec<StreamId> {
         let mut pending = self.pending.write().unwrap();
         let mut claimed = Vec::new();
@@ -286,15 +287,13 @@ impl ConsumerGroup {
         
         for id in ids {
             if let Some(entry) = pending.get_entry_mut(id) {
-                // Check idle time if not forcing
-                if !force {
-                    let idle_ms = now.duration_since(entry.last_delivery)
-                        .unwrap_or_default()
-                        .as_millis() as u64;
-                    
-                    if idle_ms < min_idle_ms {
-                        continue;
-                    }
+                // The idle threshold applies to every entry that is already pending, with or without FORCE
+                let idle_ms = now.duration_since(entry.last_delivery)
+                    .unwrap_or_default()
+                    .as_millis() as u64;
+                
+                if idle_ms < min_idle_ms {
+                    continue;
                 }
                 
                 // Update consumer pending counts
@@ -314,6 +313,23 @@ impl ConsumerGroup {
                 
                 // Transfer ownership
                 pending.transfer_ownership(id, new_consumer.to_string());
+                claimed.push(*id);
+            } else if creatable.contains(id) {
+                // FORCE: the entry exists in the stream but is not pending for anybody:
+                // create the pending entry and give it to the claimer
+                pending.add_entry(PendingEntry {
+                    id: *id,
+                    consumer: new_consumer.to_string(),
+                    delivered_at: now,
+                    delivery_count: 1,
+                    last_delivery: now,
+                });
+                
+                if let Some(new_consumer_obj) = self.consumers.write().unwrap().get_mut(new_consumer) {
+                    new_consumer_obj.pending_count += 1;
+                }
+                
+                *self.total_pending.lock().unwrap() += 1;
                 claimed.push(*id);
             }
         }
@@ -395,7 +411,7 @@ impl ConsumerGroup {
         drop(pending);
         
         // Claim the idle entries
-        let claimed = self.claim_messages(consumer, min_idle_ms, &idle_entries, false);
+        let claimed = self.claim_messages(consumer, min_idle_ms, &idle_entries, &[]);
         
         // Calculate next start ID
         let next_start = if let Some(last) = claimed.last() {
